@@ -403,6 +403,7 @@ func (s *Server) Reset(reason string, timeoutMs int64) (*statejson.ResetDescript
 		}
 
 		resetSuccess, resetFailure := s.sandboxContext.Reset(reset)
+		verifAt("server.resetBeforeClear")
 		s.Clear() // clear server state to prepare for new invokes
 		s.setRapidPhase(phaseIdle)
 		s.setRuntimeState(runtimeNotStarted)
@@ -667,6 +668,7 @@ func (s *Server) Invoke(responseWriter http.ResponseWriter, invoke *interop.Invo
 		// The logic would be almost identical, except that init failures could manifest
 		// through return values of FastInvoke and not Reserve()
 
+		verifAt("server.beforeReserve")
 		reserveResp, err := s.Reserve("", "", "")
 		if err != nil {
 			// e.g. ErrAlreadyReserved: another invoke is in flight; there is no reservation to work with
@@ -695,6 +697,7 @@ func (s *Server) Invoke(responseWriter http.ResponseWriter, invoke *interop.Invo
 				}
 			}
 
+			verifAt("server.beforeFastInvoke")
 			if err := s.FastInvoke(responseWriter, invoke, false); err != nil {
 				log.Debugf("FastInvoke() error: %s", err)
 			}
